@@ -5,7 +5,7 @@
     rd next|peek <n>                      => ok <hex> | err <e>
     rd skip <n>                           => ok | err <e>
     rd rb <n>                             => rb <m> <hex of bs[:min(m,n)]> <e|nil>
-    rd release                            => ok
+    rd release [e<k>]                     => ok        (Release(nil) / Release(err k), e0 = io.EOF)
     rd len                                => <k>
   A trailing field starting with '#' is a replay tag of the harness and is ignored.
   model column  = the reader model (Model/Reader via Rd.step) run on the same history;
@@ -51,7 +51,7 @@ def parseErrTok (e : String) : Option String := if e == "nil" then none else som
 def parseImpl (op : ROp) (res : String) : Option (RRes String) :=
   match op, res.splitOn " " with
   | .next _, ["ok", h] | .peek _, ["ok", h] => (parseHex h).map .bytes
-  | .skip _, ["ok"] | .release, ["ok"] => some .done
+  | .skip _, ["ok"] | .release _, ["ok"] => some .done
   | .next _, ["err", e] | .peek _, ["err", e] | .skip _, ["err", e] => some (.fail (parseErrTok e))
   | .readBinary _, ["rb", m, h, e] => do
     let m ← m.toNat?
@@ -81,7 +81,8 @@ def parseOp : List String → Option ROp
   | ["peek", n] => n.toInt?.map .peek
   | ["skip", n] => n.toInt?.map .skip
   | ["rb", n] => n.toNat?.map .readBinary
-  | ["release"] => some .release
+  | ["release"] => some (.release none)
+  | ["release", e] => if e.startsWith "e" then (e.drop 1).toNat?.map (fun k => .release (some (errOfId k))) else none
   | ["len"] => some .readLen
   | _ => none
 
